@@ -4,27 +4,27 @@ From Coq Require Import Arith List Bool Lia.
 From QV Require Import Core.Bits.
 Import ListNotations.
 
-Inductive pl := I | X | Y | Z.
+Inductive pl := pI | pX | pY | pZ.
 Definition pl_eq_dec (a b : pl) : {a = b} + {a <> b}. Proof. decide equality. Defined.
 Definition pl_eqb (a b : pl) : bool := if pl_eq_dec a b then true else false.
 Notation pstr := (list pl).
 
-Definition xbit p := match p with X | Y => true | _ => false end.
-Definition zbit p := match p with Z | Y => true | _ => false end.
+Definition xbit p := match p with pX | pY => true | _ => false end.
+Definition zbit p := match p with pZ | pY => true | _ => false end.
 (* pauli_to_bsf._to_bsf : hstack((ps=='X')+(ps=='Y'), (ps=='Z')+(ps=='Y')) *)
 Definition to_bsf (s : pstr) : bsf := map xbit s ++ map zbit s.
 Definition to_bsf_list (ss : list pstr) : list bsf := map to_bsf ss.
 
 Definition halves (a : bsf) : bsf * bsf := let n := length a / 2 in (firstn n a, skipn n a).
-(* bsf_to_pauli._to_pauli : x + 2z -> 0=I,1=X,2=Z,3=Y *)
+(* bsf_to_pauli._to_pauli : x + 2z -> 0=pI,1=pX,2=pZ,3=pY *)
 Definition letter (x z : bool) : pl :=
-  match x, z with false, false => I | true, false => X | false, true => Z | true, true => Y end.
+  match x, z with false, false => pI | true, false => pX | false, true => pZ | true, true => pY end.
 Fixpoint letters (xs zs : bsf) : pstr :=
   match xs, zs with x :: xs', z :: zs' => letter x z :: letters xs' zs' | _, _ => [] end.
 Definition of_bsf (b : bsf) : pstr := let '(xs, zs) := halves b in letters xs zs.
 Definition of_bsf_list (bs : list bsf) : list pstr := map of_bsf bs.
 
-Definition wt1 (p : pl) : nat := match p with I => 0 | _ => 1 end.
+Definition wt1 (p : pl) : nat := match p with pI => 0 | _ => 1 end.
 Fixpoint pauli_wt (s : pstr) : nat := match s with [] => 0 | p :: r => wt1 p + pauli_wt r end.
 Definition pauli_wt_list (ss : list pstr) : nat := fold_right (fun s acc => pauli_wt s + acc) 0 ss.
 (* bsf_wt : count_nonzero(sum(hsplit(bsf,2))) *)
@@ -33,7 +33,7 @@ Definition bsf_wt_rows (bs : list bsf) : nat := fold_right (fun b acc => bsf_wt 
 
 (* ground truth: single-qubit Paulis anticommute iff both are non-identity and differ *)
 Definition anti1 (p q : pl) : bool :=
-  match p, q with I, _ | _, I => false | X, X | Y, Y | Z, Z => false | _, _ => true end.
+  match p, q with pI, _ | _, pI => false | pX, pX | pY, pY | pZ, pZ => false | _, _ => true end.
 Fixpoint anticommutes (s t : pstr) : bool :=
   match s, t with p :: s', q :: t' => xorb (anti1 p q) (anticommutes s' t') | _, _ => false end.
 Definition commutes (s t : pstr) : bool := negb (anticommutes s t).
